@@ -6,29 +6,41 @@ equilibrium vector is the stationary distribution, the lazily cached matrix is t
 namespace Bpp.Hmm
 open Bpp Finset
 
-theorem autoEntry_eq (n : Nat) (li : ℝ) (i j : Nat) :
+theorem autoEntry_one (li : ℝ) (i j : Nat) : autoEntry 1 li i j = 1 := by
+  simp [autoEntry]
+
+theorem autoEntry_eq (n : Nat) (hn : n ≠ 1) (li : ℝ) (i j : Nat) :
     autoEntry n li i j = (1 - li) / ((n : ℝ) - 1) + (if i = j then li - (1 - li) / ((n : ℝ) - 1) else 0) := by
   unfold autoEntry
+  have h1 : (n == 1) = false := by simpa using hn
   by_cases h : i = j
-  · simp [h]
+  · simp [h, h1]
   · have : (i == j) = false := by simpa using h
-    simp [this, h]
+    simp [this, h, h1]
 
-theorem autoEntry_row_sum (n : Nat) (hn : 2 ≤ n) (li : ℝ) (i : Nat) (hi : i < n) :
+theorem autoEntry_row_sum (n : Nat) (hn : 1 ≤ n) (li : ℝ) (i : Nat) (hi : i < n) :
     ∑ j ∈ range n, autoEntry n li i j = 1 := by
-  simp only [autoEntry_eq, Finset.sum_add_distrib, Finset.sum_const, Finset.card_range, Finset.sum_ite_eq,
+  by_cases h1 : n = 1
+  · subst h1; simp [autoEntry_one]
+  have hn2 : 2 ≤ n := by omega
+  simp only [autoEntry_eq n h1, Finset.sum_add_distrib, Finset.sum_const, Finset.card_range, Finset.sum_ite_eq,
     Finset.mem_range, hi, if_true, nsmul_eq_mul]
   have : ((n : ℝ) - 1) ≠ 0 := by
-    have : (2 : ℝ) ≤ n := by exact_mod_cast hn
+    have : (2 : ℝ) ≤ n := by exact_mod_cast hn2
     linarith
   field_simp; ring
 
-theorem autoEntry_nonneg (n : Nat) (hn : 2 ≤ n) (li : ℝ) (h0 : 0 ≤ li) (h1 : li ≤ 1) (i j : Nat) :
+theorem autoEntry_nonneg (n : Nat) (hn : 1 ≤ n) (li : ℝ) (h0 : 0 ≤ li) (h1 : li ≤ 1) (i j : Nat) :
     0 ≤ autoEntry n li i j := by
+  by_cases hn1 : n = 1
+  · subst hn1; rw [autoEntry_one]; exact zero_le_one
+  have hn2 : 2 ≤ n := by omega
   unfold autoEntry
+  have hb : (n == 1) = false := by simpa using hn1
+  simp only [hb, Bool.false_eq_true, if_false]
   split
   · exact h0
-  · have : (2 : ℝ) ≤ n := by exact_mod_cast hn
+  · have : (2 : ℝ) ≤ n := by exact_mod_cast hn2
     simp only [ScalarReal.one_eq, ScalarReal.ofInt_eq, sub_eq, div_eq]
     push_cast
     exact div_nonneg (by linarith) (by linarith)
@@ -42,11 +54,9 @@ theorem autoEq_vec (n : Nat) (lam : Nat → ℝ) : autoEq (vec n lam) = vec n (a
   simp only [map_vec, sumL_vec, ScalarReal.one_eq, sub_eq, div_eq]
   rfl
 
-theorem autoPi_stationary (n : Nat) (hn : 2 ≤ n) (lam : Nat → ℝ) (hl : ∀ i, i < n → lam i < 1) :
+theorem autoPi_stationary (n : Nat) (hn : 1 ≤ n) (lam : Nat → ℝ) (hl : ∀ i, i < n → lam i < 1) :
     (∀ j, j < n → ∑ k ∈ range n, autoPi n lam k * autoEntry n (lam k) k j = autoPi n lam j)
     ∧ ∑ i ∈ range n, autoPi n lam i = 1 ∧ ∀ i, i < n → 0 < autoPi n lam i := by
-  have hn2 : (2 : ℝ) ≤ n := by exact_mod_cast hn
-  have hn1 : ((n : ℝ) - 1) ≠ 0 := by linarith
   have hw : ∀ i, i < n → 0 < 1 / (1 - lam i) := fun i hi => one_div_pos.mpr (by linarith [hl i hi])
   set S := ∑ k ∈ range n, 1 / (1 - lam k) with hS
   have hSpos : 0 < S := Finset.sum_pos (fun i hi => hw i (Finset.mem_range.mp hi)) (by simp; omega)
@@ -56,7 +66,15 @@ theorem autoPi_stationary (n : Nat) (hn : 2 ≤ n) (lam : Nat → ℝ) (hl : ∀
     unfold autoPi; rw [← hS]; field_simp
   refine ⟨?_, ?_, ?_⟩
   · intro j hj
-    simp only [autoEntry_eq, mul_add, Finset.sum_add_distrib, mul_ite, mul_zero, Finset.sum_ite_eq', Finset.mem_range, hj, if_true]
+    by_cases hn1 : n = 1
+    · subst hn1
+      have hj0 : j = 0 := by omega
+      subst hj0
+      simp [autoEntry_one]
+    have hn2' : 2 ≤ n := by omega
+    have hn2 : (2 : ℝ) ≤ n := by exact_mod_cast hn2'
+    have hn1' : ((n : ℝ) - 1) ≠ 0 := by linarith
+    simp only [autoEntry_eq n hn1, mul_add, Finset.sum_add_distrib, mul_ite, mul_zero, Finset.sum_ite_eq', Finset.mem_range, hj, if_true]
     have h1 : ∑ k ∈ range n, autoPi n lam k * ((1 - lam k) / ((n : ℝ) - 1)) = (n : ℝ) * (1 / S) / ((n : ℝ) - 1) := by
       rw [Finset.sum_congr rfl (fun k hk => by
         rw [← mul_div_assoc, hpi k (Finset.mem_range.mp hk)])]
@@ -76,26 +94,32 @@ theorem autoPi_stationary (n : Nat) (hn : 2 ≤ n) (lam : Nat → ℝ) (hl : ∀
 inductive AutoOp (α : Type) where
   | setLambda (k : Nat) (v : α)
   | getPij
+  /-- `Pij(i, j)` (no range check: `none` = `vAutocorrel_[i]` does not exist) -/
+  | entry (i j : Nat)
   | getEq
 
 variable {α : Type} [Scalar α]
 
-def AutoTM.stepA (m : AutoTM α) : AutoOp α → AutoTM α × List (List α)
-  | .setLambda k v => (m.setLambda k v, [])
-  | .getPij => m.getPij
-  | .getEq => (m, [m.eq])
+/-- answers: a matrix (`getPij`), one row (`getEquilibriumFrequencies`), one entry, nothing, or the
+out-of-range outcome -/
+def AutoTM.stepA (m : AutoTM α) : AutoOp α → AutoTM α × Option (List (List α))
+  | .setLambda k v => (m.setLambda k v, some [])
+  | .getPij => let r := m.getPij; (r.1, some r.2)
+  | .entry i j => (m, (m.lam[i]?).map (fun li => [[autoEntry m.n li i j]]))
+  | .getEq => (m, some [m.eq])
 
-def AutoTM.runA (m : AutoTM α) : List (AutoOp α) → List (List (List α))
+def AutoTM.runA (m : AutoTM α) : List (AutoOp α) → List (Option (List (List α)))
   | [] => []
   | op :: ops => (m.stepA op).2 :: AutoTM.runA (m.stepA op).1 ops
 
 /-- the reference: everything is recomputed from the current λ's (`eq0` = the equilibrium vector as
 long as no λ was set) -/
-def autoSpecRun (n : Nat) (lam eq0 : List α) : List (AutoOp α) → List (List (List α))
+def autoSpecRun (n : Nat) (lam eq0 : List α) : List (AutoOp α) → List (Option (List (List α)))
   | [] => []
-  | .setLambda k v :: ops => [] :: autoSpecRun n (lam.set k v) (autoEq (lam.set k v)) ops
-  | .getPij :: ops => autoMatrix n lam :: autoSpecRun n lam eq0 ops
-  | .getEq :: ops => [eq0] :: autoSpecRun n lam eq0 ops
+  | .setLambda k v :: ops => some [] :: autoSpecRun n (lam.set k v) (autoEq (lam.set k v)) ops
+  | .getPij :: ops => some (autoMatrix n lam) :: autoSpecRun n lam eq0 ops
+  | .entry i j :: ops => (lam[i]?).map (fun li => [[autoEntry n li i j]]) :: autoSpecRun n lam eq0 ops
+  | .getEq :: ops => some [eq0] :: autoSpecRun n lam eq0 ops
 
 theorem AutoTM.runA_spec (m : AutoTM α) (hinv : m.upToDate = true → m.pij = autoMatrix m.n m.lam)
     (ops : List (AutoOp α)) : m.runA ops = autoSpecRun m.n m.lam m.eq ops := by
@@ -112,8 +136,21 @@ theorem AutoTM.runA_spec (m : AutoTM α) (hinv : m.upToDate = true → m.pij = a
       · simp only [hu, if_true]; rw [ih m hinv, hinv hu]
       · simp only [hu, if_false, Bool.false_eq_true]
         rw [ih _ (fun _ => rfl)]
+    | entry i j =>
+      simp only [AutoTM.runA, AutoTM.stepA, autoSpecRun]
+      rw [ih m hinv]
     | getEq =>
       simp only [AutoTM.runA, AutoTM.stepA, autoSpecRun]
       rw [ih m hinv]
+
+/-- `getPij()` agrees entry-wise with `Pij(i, j)`, whatever the history: entry `(i, j)` of the matrix a
+cache-free object computes is `autoEntry n λ_i i j` -/
+theorem autoMatrix_entry (n : Nat) (lam : List α) (i j : Nat) (hj : j < n) :
+    ((autoMatrix n lam)[i]?).bind (·[j]?) = (lam[i]?).map (fun li => autoEntry n li i j) := by
+  unfold autoMatrix
+  rw [List.getElem?_mapIdx]
+  cases lam[i]? with
+  | none => rfl
+  | some li => simp [hj]
 
 end Bpp.Hmm
